@@ -18,3 +18,4 @@ open Rtsp.Peer.C19
 #print axioms delivered_only_if_negotiated
 #print axioms pinned_iff_streaming_interleaved
 #print axioms interleaved_session_obeys_only_its_connection
+#print axioms client_stopped_no_effect
